@@ -10,8 +10,8 @@
    `<k>_pinned_unsafe` exhibits, for the code as pinned, a wrapper-admissible input on
    which the model fails: these are the replays of known_findings.d/C05.json. *)
 From Coq Require Import ZArith Bool List String Reals PrimFloat.
-From Hy Require Import Base.Num Gen.ConstsC05 Model.Safety Model.SafetyGis Proofs.SafetyProofs
-  Proofs.SafetyGisProofs.
+From Hy Require Import Base.Num Gen.Consts Gen.ConstsC05 Model.Safety Model.SafetyGis Model.SafetyStat
+  Proofs.SafetyProofs Proofs.SafetyGisProofs Proofs.SafetyGis2Proofs Proofs.SafetyStatProofs.
 Import ListNotations.
 Open Scope Z_scope.
 
@@ -167,9 +167,11 @@ Proof. vm_compute. reflexivity. Qed.
 Theorem C05_coord2cell_pinned_unsafe_nan :
   coord2cell F64 false 3 3 0%float 0%float 1%float 1 [nan; 1]%float [0] = Fail CastRange.
 Proof. exact coord2cell_pinned_unsafe_nan. Qed.
+Print Assumptions C05_coord2cell_pinned_unsafe_nan.
 Theorem C05_coord2cell_pinned_unsafe_huge :
   coord2cell F64 false 3 3 0%float 0%float 1%float 1 [0x1p+1000; 1]%float [0] = Fail CastRange.
 Proof. exact coord2cell_pinned_unsafe_huge. Qed.
+Print Assumptions C05_coord2cell_pinned_unsafe_huge.
 (* the precondition Zlen xy = 2*nval is needed: an (n,1) array read as (n,2) *)
 Theorem C05_coord2cell_needs_two_columns :
   coord2cell F64 true 3 3 0%float 0%float 1%float 5 [0; 0; 0; 0; 0]%float [0; 0; 0; 0; 0]
@@ -214,7 +216,8 @@ Theorem C05_downstream_answers_cells : forall nrows ncols code flowdir nval idxu
         (fun c out => Zlen out = nval /\ (c = 0 \/ c = 1) /\
            (c = 0 -> forall j, 0 <= j < nval ->
               0 <= nth (Z.to_nat j) idxup 0 < nrows * ncols /\
-              dgood (nrows * ncols) (nth (Z.to_nat j) out 0))).
+              dgood (nrows * ncols) (nth (Z.to_nat j) out 0)) /\
+           (c = 1 -> exists j, 0 <= j < nval /\ ~ (0 <= nth (Z.to_nat j) idxup 0 < nrows * ncols))).
 Proof. exact downstream_post. Qed.
 Print Assumptions C05_downstream_answers_cells.
 
@@ -230,6 +233,7 @@ Print Assumptions C05_accumulate_safe.
 Theorem C05_accumulate_pinned_unsafe :
   accumulate false 2 2 0 4 [32; 64; 128; 16; 0; 1; 8; 4; 2] [1; 4; 1; 0] 4 4 = Fail DivZero.
 Proof. exact accumulate_pinned_unsafe. Qed.
+Print Assumptions C05_accumulate_pinned_unsafe.
 
 Theorem C05_slope_safe : forall nrows ncols nprint code flowdir nalt slopeval,
   0 <= ncols -> nrows * ncols <= MAX64 ->
@@ -243,6 +247,7 @@ Theorem C05_slope_pinned_unsafe :
   slope false 2 2 0 [32; 64; 128; 16; 0; 1; 8; 4; 2] [1; 4; 1; 0] 4 [false; false; false; false]
   = Fail DivZero.
 Proof. exact slope_pinned_unsafe. Qed.
+Print Assumptions C05_slope_pinned_unsafe.
 
 (* c_voronoi: any arithmetic, any point coordinates, any number of points (0 included), any
    catchment cells (outside the grid included), empty grids included *)
@@ -257,9 +262,11 @@ Theorem C05_voronoi_pinned_unsafe :
   voronoi F64 false 3 3 0%float 0%float 1%float 6 [0; 1; 2; 3; 4; 5] 1 [1; 1]%float [0%float]
   = Fail (OOB "xypoints" 2).
 Proof. exact voronoi_pinned_unsafe. Qed.
+Print Assumptions C05_voronoi_pinned_unsafe.
 Theorem C05_voronoi_pinned_unsafe_nopoint :
   voronoi F64 false 3 3 0%float 0%float 1%float 1 [0] 0 [] [] = Fail (OOB "xypoints" 0).
 Proof. exact voronoi_pinned_unsafe_nopoint. Qed.
+Print Assumptions C05_voronoi_pinned_unsafe_nopoint.
 
 (* c_delineate_boundary: any area cells (one cell, scattered, outside the grid), any mask
    content; grids of at most 2^30 rows and columns; over any arithmetic in which the 80 %
@@ -289,8 +296,210 @@ Theorem C05_delineate_boundary_pinned_unsafe :
   delineate_boundary F64 false 3 3 1 [4] [0] [0; 0; 0; 0; 1; 0; 0; 0; 0] [0]
   = Fail (OOB "buffer" (-1)).
 Proof. exact delineate_boundary_pinned_unsafe. Qed.
+Print Assumptions C05_delineate_boundary_pinned_unsafe.
 Theorem C05_delineate_boundary_pinned_unsafe_cells :
   delineate_boundary F64 false 2 2 2 [-2; -1] [0; 0] [1; 1; 1; 1] [0; 0]
   = Fail (OOB "catchment_area_mask" (-1)).
 Proof. exact delineate_boundary_pinned_unsafe_cells. Qed.
 Print Assumptions C05_delineate_boundary_pinned_unsafe_cells.
+
+(* ------------------------------------------------------------------ *)
+(* the remaining gis kernels (no defect in the pinned code) *)
+
+Example C05_pyx_contract_gis2 :
+  pyx_has "gis" "upstream" ["3==flowdircode.shape[0]"; "3==flowdircode.shape[1]"; "9==idxup.shape[1]";
+                            "idxdown.shape[0]==idxup.shape[0]"] &&
+  pyx_has "gis" "delineate_area" ["3==flowdircode.shape[0]"; "3==flowdircode.shape[1]";
+      "buffer1.shape[0]==idxcells_area.shape[0]"; "buffer2.shape[0]==idxcells_area.shape[0]"] &&
+  pyx_has "gis" "delineate_river" ["1==npoints.shape[0]"; "3==flowdircode.shape[0]";
+      "3==flowdircode.shape[1]"; "5==data.shape[1]"; "data.shape[0]==idxcells.shape[0]"] &&
+  pyx_has "gis" "delineate_flowpathlengths_in_catchment" ["3==flowdircode.shape[0]";
+      "3==flowdircode.shape[1]"; "3==flowpathlengths.shape[1]";
+      "flowpathlengths.shape[0]==idxcells_area.shape[0]"] &&
+  pyx_has "gis" "intersect" ["1==npoints.shape[0]"; "2==xy_area.shape[1]";
+                             "idxcells.shape[0]==weights.shape[0]"] &&
+  pyx_has "gis" "points_inside_polygon" ["2==points.shape[1]"; "2==polygon.shape[1]";
+                                         "inside.shape[0]==points.shape[0]"] = true.
+Proof. vm_compute. reflexivity. Qed.
+
+Theorem C05_upstream_safe : forall nrows ncols code flowdir nval idxdown idxup,
+  0 <= nrows -> 0 <= ncols -> nrows * ncols <= MAX64 ->
+  Zlen code = 9 -> Zlen flowdir = nrows * ncols -> Zlen idxdown = nval ->
+  Zlen idxup = UPSTREAM_STRIDE * nval ->
+  safe (upstream nrows ncols code flowdir nval idxdown idxup).
+Proof. exact upstream_safe. Qed.
+Print Assumptions C05_upstream_safe.
+
+(* c_delineate_area: any flow direction grid (cycles included), any outlet, any inlets, any
+   buffer length nval: every store is behind a "buffer full" test and the walk ends *)
+Theorem C05_delineate_area_safe :
+  forall nrows ncols code flowdir idxoutlet ninlets idxinlets nval area b1 b2,
+  0 <= nrows -> 0 <= ncols -> nrows * ncols <= MAX64 ->
+  Zlen code = 9 -> Zlen flowdir = nrows * ncols -> Zlen idxinlets = ninlets ->
+  Zlen area = nval -> Zlen b1 = nval -> Zlen b2 = nval ->
+  safe (delineate_area nrows ncols code flowdir idxoutlet ninlets idxinlets nval area b1 b2).
+Proof. exact delineate_area_safe. Qed.
+Print Assumptions C05_delineate_area_safe.
+
+Example C05_delineate_area_nonvacuous :
+  exists s, delineate_area 1 3 [32; 64; 128; 16; 0; 1; 8; 4; 2] [1; 1; 0] 2 0 [] 5
+              [9; 9; 9; 9; 9] [9; 9; 9; 9; 9] [9; 9; 9; 9; 9] = Ret 0 s /\
+            da_area s = [1; 2; 0; 9; 9].
+Proof. eexists. vm_compute. split; reflexivity. Qed.
+
+Theorem C05_delineate_river_safe :
+  forall nrows ncols code flowdir idxupstream nval npoints idxcells data,
+  0 <= nrows -> 0 <= ncols -> nrows * ncols <= MAX64 ->
+  Zlen code = 9 -> Zlen flowdir = nrows * ncols ->
+  Zlen npoints = 1 -> Zlen idxcells = nval -> Zlen data = RIVER_NCOLS * nval ->
+  safe (delineate_river nrows ncols code flowdir idxupstream nval npoints idxcells data).
+Proof. exact delineate_river_safe. Qed.
+Print Assumptions C05_delineate_river_safe.
+
+Theorem C05_flowpathlengths_safe : forall nrows ncols code flowdir nval area outlet fpl,
+  0 <= nrows -> 0 <= ncols -> nrows * ncols <= MAX64 ->
+  Zlen code = 9 -> Zlen flowdir = nrows * ncols -> Zlen area = nval -> Zlen fpl = 3 * nval ->
+  safe (flowpathlengths nrows ncols code flowdir nval area outlet fpl).
+Proof. exact flowpathlengths_safe. Qed.
+Print Assumptions C05_flowpathlengths_safe.
+
+(* c_intersect: grid.py allocates one slot per cell of the intersecting grid; the kernel does
+   not test the fill level but never needs more (the stored cells are pairwise distinct cells of
+   that grid: pigeonhole).  Any coordinates (NaN, huge), any cell size. *)
+Theorem C05_intersect_safe : forall {T} (N : NumOps T),
+  (forall x n, 0 <= n <= MAX64 -> nleb N (n0 N) x = true -> nltb N x (nofZ N n) = true ->
+     exists z, ntrunc N x = Some z /\ 0 <= z < n) ->
+  forall nrows ncols xll yll csz nval xy npoints idxcells weights,
+  0 <= nrows <= MAX64 -> 0 <= ncols <= MAX64 -> nrows * ncols <= MAX64 ->
+  Zlen xy = 2 * nval -> Zlen npoints = 1 ->
+  Zlen idxcells = nrows * ncols -> Zlen weights = nrows * ncols ->
+  safe (intersect N true nrows ncols xll yll csz nval xy npoints idxcells weights).
+Proof. exact @intersect_safe. Qed.
+Print Assumptions C05_intersect_safe.
+
+Theorem C05_intersect_safe_reals_with_nan :
+  forall nrows ncols xll yll csz nval xy npoints idxcells weights,
+  0 <= nrows <= MAX64 -> 0 <= ncols <= MAX64 -> nrows * ncols <= MAX64 ->
+  Zlen xy = 2 * nval -> Zlen npoints = 1 ->
+  Zlen idxcells = nrows * ncols -> Zlen weights = nrows * ncols ->
+  safe (intersect RN true nrows ncols xll yll csz nval xy npoints idxcells weights).
+Proof. exact intersect_safe_RN. Qed.
+Print Assumptions C05_intersect_safe_reals_with_nan.
+
+(* c_inside: at least one vertex (the wrapper's min()/max() raise on an empty polygon) *)
+Theorem C05_inside_safe : forall {T} (N : NumOps T) nprint npoints points nvertices polygon xlim ylim ins,
+  1 <= nvertices <= 1073741823 ->
+  Zlen points = 2 * npoints -> Zlen polygon = 2 * nvertices -> Zlen xlim = 2 -> Zlen ylim = 2 ->
+  Zlen ins = npoints ->
+  safe (inside N nprint npoints points nvertices polygon xlim ylim ins).
+Proof. exact @inside_safe. Qed.
+Print Assumptions C05_inside_safe.
+
+(* ================================================================== *)
+(* stat kernels: any arithmetic instance, any values *)
+
+Example C05_pyx_contract_stat :
+  pyx_has "stat" "armodel_sim" ["inputs.shape[0]==outputs.shape[0]"] &&
+  pyx_has "stat" "armodel_residual" ["inputs.shape[0]==residuals.shape[0]"] &&
+  pyx_has "stat" "crps" ["5==crps_decompos.shape[0]"; "7==reliability_table.shape[1]";
+                         "obs.shape[0]==sim.shape[0]"; "reliability_table.shape[0]==sim.shape[1]+1"] &&
+  pyx_has "stat" "ensrank" ["fmat.shape[0]==sim.shape[0]"; "fmat.shape[1]==sim.shape[0]";
+                            "ranks.shape[0]==sim.shape[0]"] &&
+  pyx_has "stat" "ad_test" ["2==outputs.shape[0]"] &&
+  pyx_has "stat" "pareto_front" ["data.shape[0]==isdominated.shape[0]"] = true.
+Proof. vm_compute. reflexivity. Qed.
+
+(* every order the kernels accept (1..ARMODEL_NPARAMSMAX) fits the lag buffer they declare
+   (both sizes re-extracted from the source) *)
+Theorem C05_armodel_safe : forall {T} (N : NumOps T) resid nval nparams mean ini params inputs outputs,
+  Zlen params = nparams -> Zlen inputs = nval -> Zlen outputs = nval ->
+  safe (armodel N resid nval nparams mean ini params inputs outputs).
+Proof. exact @armodel_safe. Qed.
+Print Assumptions C05_armodel_safe.
+
+Example C05_armodel_order_bounds : ARMODEL_NPARAMSMAX <= ARMODEL_PREV_SIZE.
+Proof. vm_compute. discriminate. Qed.
+
+Theorem C05_crps_safe : forall {T} (N : NumOps T) nval ncol use_weights nobs sim nweights table ndec,
+  1 <= ncol -> 0 <= nval -> nval * ncol <= INT_MAX -> (ncol + 1) * CRPS_TABLE_NCOLS <= INT_MAX ->
+  nobs = nval -> Zlen sim = nval * ncol -> nweights = nval ->
+  Zlen table = (ncol + 1) * CRPS_TABLE_NCOLS -> ndec = 5 ->
+  safe (crps N nval ncol use_weights nobs sim nweights table ndec).
+Proof. exact @crps_safe. Qed.
+Print Assumptions C05_crps_safe.
+
+(* without a member the kernel reads ensemb[-1]: metrics.py excludes it ("No valid data") *)
+Example C05_crps_needs_a_member :
+  crps F64 1 0 0 1 [] 1 [false; false; false; false; false; false; false] 5
+  = Fail (OOB "ensemb" (-1)).
+Proof. vm_compute. reflexivity. Qed.
+
+Theorem C05_ensrank_safe : forall {T} (N : NumOps T) eps nval ncol nsim fmat ranks,
+  nval * nval <= INT_MAX -> nval * ncol <= INT_MAX -> 2 * ncol <= INT_MAX ->
+  nsim = nval * ncol -> Zlen fmat = nval * nval -> Zlen ranks = nval ->
+  safe (ensrank N eps nval ncol nsim fmat ranks).
+Proof. exact @ensrank_safe. Qed.
+Print Assumptions C05_ensrank_safe.
+
+Theorem C05_adtest_safe : forall {T} (N : NumOps T) n x outputs,
+  Zlen x = n -> Zlen outputs = 2 -> safe (adtest N n x outputs).
+Proof. exact @adtest_safe. Qed.
+Print Assumptions C05_adtest_safe.
+
+Theorem C05_paretofront_safe : forall {T} (N : NumOps T) nval ncol orient data isdom,
+  0 <= ncol -> nval * ncol <= INT_MAX -> Zlen data = nval * ncol -> Zlen isdom = nval ->
+  safe (paretofront N nval ncol orient data isdom).
+Proof. exact @paretofront_safe. Qed.
+Print Assumptions C05_paretofront_safe.
+
+(* ================================================================== *)
+(* the c-module date helpers *)
+
+Example C05_pyx_contract_dates :
+  pyx_has "data" "add1month" ["3==date.shape[0]"] && pyx_has "data" "add1day" ["3==date.shape[0]"] &&
+  pyx_has "data" "comparedates" ["3==date1.shape[0]"; "3==date2.shape[0]"] &&
+  pyx_has "data" "getdate" ["3==date.shape[0]"] = true.
+Proof. vm_compute. reflexivity. Qed.
+
+Theorem C05_daysinmonth_safe : forall year month,
+  exists n, daysinmonth year month = Ok n /\ -1 <= n <= 31.
+Proof. exact daysinmonth_ok. Qed.
+Print Assumptions C05_daysinmonth_safe.
+Theorem C05_dayofyear_safe : forall month day, exists n, dayofyear month day = Ok n.
+Proof. exact dayofyear_safe. Qed.
+Print Assumptions C05_dayofyear_safe.
+
+Theorem C05_add1month_safe : forall date,
+  Zlen date = 3 -> Forall int32 date -> safe (add1month true date).
+Proof. exact add1month_safe. Qed.
+Print Assumptions C05_add1month_safe.
+Theorem C05_add1month_pinned_unsafe : add1month false [2147483647; 12; 1] = Fail Overflow.
+Proof. exact add1month_pinned_unsafe. Qed.
+Print Assumptions C05_add1month_pinned_unsafe.
+Theorem C05_add1day_safe : forall date,
+  Zlen date = 3 -> Forall int32 date -> safe (add1day true date).
+Proof. exact add1day_safe. Qed.
+Print Assumptions C05_add1day_safe.
+Theorem C05_add1day_pinned_unsafe : add1day false [2147483647; 12; 31] = Fail Overflow.
+Proof. exact add1day_pinned_unsafe. Qed.
+Print Assumptions C05_add1day_pinned_unsafe.
+Theorem C05_comparedates_safe : forall d1 d2,
+  Zlen d1 = 3 -> Zlen d2 = 3 -> safe (comparedates d1 d2).
+Proof. exact comparedates_safe. Qed.
+Print Assumptions C05_comparedates_safe.
+
+(* getdate: any day number, NaN included (reals with a NaN) *)
+Theorem C05_getdate_safe_reals_with_nan : forall day date,
+  Zlen date = 3 -> safe (getdate RN true day date).
+Proof. exact getdate_safe_RN. Qed.
+Print Assumptions C05_getdate_safe_reals_with_nan.
+Theorem C05_getdate_pinned_unsafe :
+  getdate F64 false 0x1p+1000%float [0; 0; 0] = Fail CastRange /\
+  getdate F64 false nan [0; 0; 0] = Fail CastRange.
+Proof. split; [exact getdate_pinned_unsafe|exact getdate_pinned_unsafe_nan]. Qed.
+Print Assumptions C05_getdate_pinned_unsafe.
+Example C05_getdate_fixed :
+  getdate F64 true 0x1p+1000%float [0; 0; 0] = Ret 1 [0; 0; 0] /\
+  getdate F64 true nan [0; 0; 0] = Ret 1 [0; 0; 0] /\
+  getdate F64 true 20000229%float [0; 0; 0] = Ret 0 [2000; 2; 29].
+Proof. exact getdate_fixed_rejects. Qed.
